@@ -45,6 +45,8 @@ type UnitResult struct {
 type ModelTerm struct {
 	Label string
 	Term  string
+	Sort  string // SMT sort of the term ("" when unknown); 64-bit entry values are minimised before a replay
+	Entry bool   // a value of the entry state (an input), as opposed to a result or a path-specific value
 }
 
 // UnitsFor lists the units relevant to a property ("" = every contracted function).
@@ -342,6 +344,26 @@ func (w *World) VerifyWith(u *Unit, classes map[string][]string) (res *UnitResul
 	}
 	u.entry = st.snapshot()
 	res.ModelTerms = x.modelTerms(u)
+	// replay inputs: let macros named in_* are evaluated in the entry state and reported with every counterexample of the
+	// unit (the replay drivers rebuild the inputs of the real function from them)
+	if u.Spec != nil {
+		for _, l := range u.Spec.Lets {
+			if !strings.HasPrefix(l.Name, "in_") {
+				continue
+			}
+			func() {
+				defer func() { recover() }()
+				ienv := x.newEnv(u.entry, u.Spec)
+				ienv.names = u.entryNames
+				v := ienv.eval(l.Expr)
+				if v.P == nil {
+					for j, t := range v.L {
+						res.ModelTerms = append(res.ModelTerms, ModelTerm{fmt.Sprintf("let %s#%d", l.Name, j), t.S, string(t.Sort), true})
+					}
+				}
+			}()
+		}
+	}
 	// vacuity: the precondition must be satisfiable
 	e.obls = append(e.obls, &Obligation{Unit: u.Name, Name: u.Name + "/vacuity:requires", Kind: "vacuity", PC: st.pc[:len(st.pc):len(st.pc)], Goal: smt.False, Cover: true, Text: "precondition is satisfiable"})
 	nret := 0
@@ -442,7 +464,7 @@ func (x *exec) modelTerms(u *Unit) []ModelTerm {
 		for i, l := range ls {
 			if i < len(v.L) && !seen[label+l.Path] {
 				seen[label+l.Path] = true
-				out = append(out, ModelTerm{label + l.Path, v.L[i].S})
+				out = append(out, ModelTerm{label + l.Path, v.L[i].S, string(v.L[i].Sort), true})
 			}
 		}
 		if depth <= 0 || len(out) > 400 {
@@ -518,7 +540,7 @@ func (x *exec) atReturn(st *State, u *Unit, rets []Value, captured []captVar, nr
 		if r.P == nil && len(r.L) > 0 && i < res.Len() {
 			for j, l := range e.leaves(res.At(i).Type()) {
 				if j < len(r.L) {
-					e.pathModel = append(e.pathModel, ModelTerm{fmt.Sprintf("result%d%s", i, l.Path), r.L[j].S})
+					e.pathModel = append(e.pathModel, ModelTerm{fmt.Sprintf("result%d%s", i, l.Path), r.L[j].S, "", false})
 				}
 			}
 		}
@@ -529,7 +551,7 @@ func (x *exec) atReturn(st *State, u *Unit, rets []Value, captured []captVar, nr
 			v := env.eval(l.Expr)
 			if v.P == nil {
 				for j, t := range v.L {
-					e.pathModel = append(e.pathModel, ModelTerm{fmt.Sprintf("let %s#%d", l.Name, j), t.S})
+					e.pathModel = append(e.pathModel, ModelTerm{fmt.Sprintf("let %s#%d", l.Name, j), t.S, "", false})
 				}
 			}
 		}()
